@@ -26,7 +26,8 @@ def run(chk, tier):
     ops = []
     groups = []
     n = 6 if quick else 150
-    for fam, L in (("Aes128", 16), ("Aes192", 24), ("Aes256", 32), ("Kuznyechik", 32)):
+    for fam, L in (("Aes128", 16), ("Aes192", 24), ("Aes256", 32), ("Kuznyechik", 32),
+                   ("Armv8Aes128", 16), ("Armv8Aes192", 24), ("Armv8Aes256", 32), ("NeonKuznyechik", 32)):
         for i in range(n):
             k = r.structured(L) if i % 3 == 0 else r.bytes(L)
             start = len(ops)
